@@ -1,6 +1,8 @@
 """C05 layout preservation: proof (Props/C05.v) + correspondence of parser/writer models + oracle: in write(load(T)) every
 significant token stands on the line it had in T (layout class of the property), and text in the writer's own format is
 reproduced byte for byte."""
+import re
+
 import framework as fw
 import sx
 import docgen
@@ -34,7 +36,11 @@ def gen_cases(rng, tier):
         tries += 1
         lay = docgen.Layout(mode=rng.choice(['canonical', 'random']), crlf=False, comments=rng.choice([None, 'block-level']))
         node, text, toks = docs.random_doc(rng, size=rng.choice(['tiny', 'small', 'small', 'medium']), layout=lay,
-                                           ifdata=rng.choice([None, 'unknown', 'empty']), strings=['plain', 'empty', 'escapes', 'dquote', 'utf8'])
+                                           ifdata=rng.choice([None, 'unknown', 'empty']), strings=['plain', 'empty', 'escapes', 'dquote', 'utf8'],
+                                           a2ml=rng.choice([None, None, 'simple']))
+        if '/end A2ML' in text and rng.random() < 0.7:
+            # empty lines inside the A2ML text, also directly in front of the line of /end A2ML
+            text = re.sub(r'\n([ \t]*)/end A2ML', lambda m: '\n' * rng.choice([1, 2, 3]) + m.group(1) + '/end A2ML', text, count=1)
         if rng.random() < 0.4:
             text = comment_runs(rng, text)
         st = loadlib.scan_tokens(text)
